@@ -8,6 +8,8 @@ impl Gcd for BoxedUint {
     type Output = Self;
 
     /// Compute the greatest common divisor (GCD) of this number and another.
+    ///
+    /// Panics if `rhs` does not have the same precision as `self`.
     fn gcd(&self, rhs: &Self) -> Self {
         let k1 = self.trailing_zeros();
         let k2 = rhs.trailing_zeros();
